@@ -116,8 +116,9 @@ def main(tier, seed, replay=None):
         second.append((t2, [["unrelated"]] + nb, log, ("perm", perm), ws))
         # (c) an output moved to another step / removed from the output set
         if len(b) >= 1 and len(b[0]) >= 2:
-            moved = b[0][-1]
-            nb2 = [b[0][:-1]] + [list(x) for x in b[1:]]
+            mi = rng.randrange(len(b[0]))           # any position, not only the last one
+            moved = b[0][mi]
+            nb2 = [b[0][:mi] + b[0][mi + 1:]] + [list(x) for x in b[1:]]
             if rng.random() < 0.5 and len(nb2) >= 2:
                 nb2[1] = nb2[1] + [moved]
                 kind = "moved"
